@@ -117,7 +117,7 @@ def run_ctor(case, stt):
     arr = da.from_array(x, chunks=tuple(max(1, s) for s in x.shape)) if case["dask"] and x.ndim else x
     kw = G.sig_kwargs(spec)
     if kw["start_time"] is not None:
-        if case["start_form"] == "iso_string":
+        if case["start_form"] == "iso_string" and spec["t0"].get("scale", "utc") == "utc":  # (a bare ISO string carries no scale)
             kw["start_time"] = Time(kw["start_time"], format="isot", precision=9).isot
         elif case["start_form"] == "tai":
             kw["start_time"] = kw["start_time"].tai
@@ -151,7 +151,7 @@ def run_ctor(case, stt):
         if spec["t0"] is None:
             check(z.start_time is None, "{}: start_time appeared", what)
         else:
-            ttol = F(1, 10**9) if case["start_form"] == "iso_string" else O.time_tol(0)  # the ISO string carries 9 decimals
+            ttol = F(1, 10**9) if (case["start_form"] == "iso_string" and spec["t0"].get("scale", "utc") == "utc") else O.time_tol(0)  # 9 decimals
             check(abs(O.T(z.start_time) - O.T(G.mk_time(spec["t0"]))) <= ttol, "{}: start_time {}", what, z.start_time)
         if cls != "Signal":
             nchan = z.shape[1]
